@@ -446,6 +446,12 @@ int main(int argc, char** argv)
 				else if (tag == "start") start_name = k.kids.at(1).atom;
 			}
 			grammar gr = start(b.rules[start_name]);
+			// the grammar must be self-contained: every rule it was built from, the whitespace rule and all the strings
+			// the DSL was given are destroyed before anything is parsed (C10; dangling references show up under ASan)
+			b.rules.clear();
+			sp.reset();
+			for (auto& str : b.strings) std::fill(str.begin(), str.end(), '#');
+			b.strings.clear();
 			std::printf("case %d prog ", caseno); dump_program(gr.program()); std::printf("\n");
 			for (size_t i = 1; i < g.kids.size(); ++i) {
 				auto const& k = g.kids[i]; auto const& tag = k.kids.at(0).atom;
